@@ -67,6 +67,7 @@ struct Machine {
 	unsigned long long enabled = kValueOps;
 	bool nt = false;
 	bool faulted = false;
+	bool tolerated_once = false;
 	int fault_op = -1;
 	bool fault_in_alloc_and_construct = false;
 	long same_storage_ops = 0;
@@ -103,7 +104,7 @@ struct Machine {
 		VP_CHECK(static_cast<long>(A.num_elements()) == m.n(), "value/num_elements", "slot " << i << " after " << after << ": num_elements()=" << A.num_elements() << " model " << m.n());
 		VP_CHECK(A.is_empty() == (A.size() == 0), "value/is_empty", "slot " << i << " after " << after);
 		if constexpr(Cfg::stateful) {
-			VP_CHECK(A.get_allocator().id == alloc_id[i], "alloc/identity", "slot " << i << " after " << after << ": get_allocator().id=" << A.get_allocator().id << " expected " << alloc_id[i]);
+			if((Cfg::flags & 8) == 0) VP_CHECK(A.get_allocator().id == alloc_id[i], "alloc/identity", "slot " << i << " after " << after << ": get_allocator().id=" << A.get_allocator().id << " expected " << alloc_id[i]);
 		}
 		if(m.n() == 0) { return; }
 		long sz[D]; lib_sizes(A, sz);
@@ -130,14 +131,62 @@ struct Machine {
 			auto const* p = slot[i]->data_elements(); auto const* q = slot[j]->data_elements();
 			VP_CHECK((p + model[i].n() <= q) || (q + model[j].n() <= p), "value/shared_storage", "slots " << j << " and " << i << " share storage after " << after);
 		} }
+		if(faulted && !tolerated_once) {
+			long live = 0, blocks = 0; for(auto const& m : model) { live += m.n(); blocks += m.n() > 0 ? 1 : 0; }
+			bool const stray_block = Cfg::stateful && static_cast<long>(obs().blocks.size()) == blocks + 1;
+			bool const stray_elems = tracked && static_cast<long>(obs().alive.size()) > live;
+			if(stray_block || stray_elems) { tolerated_once = tolerate_ctor_leak(); }
+		}
 		if constexpr(tracked) {
 			long live = 0; for(auto const& m : model) { live += m.n(); }
-			VP_CHECK(static_cast<long>(obs().alive.size()) == live, "lifetime/stray_elements", "after " << after << ": " << obs().alive.size() << " live elements but the arrays hold " << live);
+			VP_CHECK(static_cast<long>(obs().alive.size()) == live, "lifetime/stray_elements", "after " << after << ": " << obs().alive.size() << " live elements but the arrays hold " << live << " (outstanding blocks: " << obs().blocks.size() << ")");
 		}
 		if constexpr(Cfg::stateful) {
 			long blocks = 0; for(auto const& m : model) { blocks += m.n() > 0 ? 1 : 0; }
 			VP_CHECK(static_cast<long>(obs().blocks.size()) == blocks, "alloc/stray_blocks", "after " << after << ": " << obs().blocks.size() << " outstanding blocks but " << blocks << " non-empty arrays");
 		}
+	}
+
+	// Recorded known finding (C09, key alloc/stray_blocks): every constructor allocates in its member-initialiser list and constructs the elements in its
+	// body, so an element that throws during construction leaks the block.  The same constructors run inside the assignments that build a temporary
+	// (initializer list, iterator pair, view or convertible array of other extents, decay).  To keep searching behind it, exactly this symptom is
+	// tolerated and counted: one stray block, holding no live element, after an injected *element* fault inside one of those operations.
+	bool tolerate_ctor_leak() {
+		if(known_mode() || !faulted) { return false; }
+		unsigned const k = obs().fault_event_kind;
+		if(!(k == 2 || k == 4 || k == 32)) { return false; }
+		int const fc = obs().fault_context;
+		switch(fc) {
+			case O_CTOR_EXT: case O_CTOR_EXT_VAL: case O_CTOR_ILIST: case O_CTOR_ITERS: case O_CTOR_VIEW: case O_CTOR_CONVERT: case O_COPY_CTOR: case O_COPY_CTOR_ALLOC: case O_MOVE_CTOR_ALLOC:
+			case O_ASSIGN_ILIST: case O_ASSIGN_ITERS: case O_ASSIGN_VIEW: case O_ASSIGN_CONVERT: case O_DECAY: break;
+			default: return false;
+		}
+		// second recorded finding: construction from an iterator pair / nested initializer list of dimensionality >= 2 copies row by row and does not
+		// roll back the rows built before the throwing one: their elements stay alive inside the leaked block (which may belong to an unobserved
+		// temporary array with the default allocator)
+		bool const rows = D >= 2 && (fc == O_CTOR_ILIST || fc == O_CTOR_ITERS || fc == O_ASSIGN_ILIST || fc == O_ASSIGN_ITERS);
+		bool did = false;
+		if constexpr(tracked) { if(rows) {
+			std::vector<void const*> stray;
+			for(auto const* e : obs().alive) {
+				bool inside = false;
+				for(int i = 0; i < NS; ++i) { if(model[i].n() > 0) { auto const* p = slot[i]->data_elements(); if(e >= static_cast<void const*>(p) && e < static_cast<void const*>(p + model[i].n())) { inside = true; } } }
+				if(!inside) { stray.push_back(e); }
+			}
+			for(auto const* e : stray) { obs().alive.erase(e); ctx.count("known_finding_rows_not_rolled_back_elements"); did = true; }
+		} }
+		for(auto it = obs().blocks.begin(); it != obs().blocks.end(); ++it) {
+			bool owned = false;
+			for(int i = 0; i < NS; ++i) { if(model[i].n() > 0 && static_cast<void const*>(slot[i]->data_elements()) == it->first) { owned = true; } }
+			if(owned) { continue; }
+			auto const* p = static_cast<T const*>(it->first);
+			for(std::size_t j = 0; j < it->second.n; ++j) { if constexpr(tracked) { if(obs().alive.count(p + j) != 0) { return did; } } }
+			::operator delete(const_cast<void*>(it->first));
+			obs().blocks.erase(it); ++obs().deallocs;
+			ctx.count("known_finding_ctor_block_leak_tolerated");
+			return true;
+		}
+		return did;
 	}
 
 	MV make_model(std::vector<long> const& e, int base, int step) const {
@@ -228,32 +277,44 @@ struct Machine {
 		if((in.op(rec, 3) & 2U) != 0) { interp.step(std::as_const(B), m); } else { interp.step(B, m); }
 	}
 
-	// nested initializer lists of a few fixed shapes
+	// nested initializer lists of a few fixed shapes.  The initializer_list object is built first, with fault injection paused: an exception thrown
+	// while a nested braced list is being materialised leaves already built backing-array temporaries undestroyed (observed with g++ 12 and
+	// clang 14; a compiler matter, not the library's), so only the library call itself is exposed to faults.
 	void from_ilist(int a, bool assign, unsigned x) {
+		// the initializer-list constructors are declared with rows of the default allocator, the assignments with rows of the array's own allocator
+		if(assign) { from_ilist_<typename Arr::value_type>(a, true, x); } else { from_ilist_<typename multi::static_array<T, D>::value_type>(a, false, x); }
+	}
+	template<class VT>
+	void from_ilist_(int a, bool assign, unsigned x) {
 		int s = static_cast<int>(x % 40U);
 		MV m;
 		auto t = [](int q) { return mk<T>(q); };
+		auto go = [&](std::initializer_list<VT> il) {
+			obs().paused = false;
+			if constexpr(std::is_same_v<VT, typename Arr::value_type>) { if(assign) { *slot[a] = il; return; } }
+			if constexpr(std::is_same_v<VT, typename multi::static_array<T, D>::value_type>) { if(!assign) { slot[a].reset(new Arr(il)); return; } }
+		};
+		struct Unpause { ~Unpause() { obs().paused = false; } } unpause;
+		obs().paused = true;
 		if constexpr(D == 1) {
 			switch(x % 3U) {
-				case 0: m.ext = {3}; m.v = {s, s + 1, s + 2}; if(assign) { *slot[a] = {t(s), t(s + 1), t(s + 2)}; } else { slot[a].reset(new Arr{t(s), t(s + 1), t(s + 2)}); } break;
-				case 1: m.ext = {2}; m.v = {s, s + 7}; if(assign) { *slot[a] = {t(s), t(s + 7)}; } else { slot[a].reset(new Arr{t(s), t(s + 7)}); } break;
-				default: m.ext = {0}; if(assign) { *slot[a] = {}; } else { slot[a].reset(new Arr{}); } break;
+				case 0: { m.ext = {3}; m.v = {s, s + 1, s + 2}; std::initializer_list<VT> il = {t(s), t(s + 1), t(s + 2)}; go(il); break; }
+				case 1: { m.ext = {2}; m.v = {s, s + 7}; std::initializer_list<VT> il = {t(s), t(s + 7)}; go(il); break; }
+				default: { m.ext = {0}; std::initializer_list<VT> il = {}; go(il); break; }
 			}
 		} else if constexpr(D == 2) {
 			switch(x % 3U) {
-				case 0: m.ext = {2, 3}; m.v = {s, s + 1, s + 2, s + 3, s + 4, s + 5};
-					if(assign) { *slot[a] = {{t(s), t(s + 1), t(s + 2)}, {t(s + 3), t(s + 4), t(s + 5)}}; } else { slot[a].reset(new Arr{{t(s), t(s + 1), t(s + 2)}, {t(s + 3), t(s + 4), t(s + 5)}}); } break;
-				case 1: m.ext = {3, 1}; m.v = {s, s + 1, s + 2};
-					if(assign) { *slot[a] = {{t(s)}, {t(s + 1)}, {t(s + 2)}}; } else { slot[a].reset(new Arr{{t(s)}, {t(s + 1)}, {t(s + 2)}}); } break;
-				default: m.ext = {0, 0}; if(assign) { *slot[a] = {}; } else { slot[a].reset(new Arr{}); } break;
+				case 0: { m.ext = {2, 3}; m.v = {s, s + 1, s + 2, s + 3, s + 4, s + 5}; std::initializer_list<VT> il = {{t(s), t(s + 1), t(s + 2)}, {t(s + 3), t(s + 4), t(s + 5)}}; go(il); break; }
+				case 1: { m.ext = {3, 1}; m.v = {s, s + 1, s + 2}; std::initializer_list<VT> il = {{t(s)}, {t(s + 1)}, {t(s + 2)}}; go(il); break; }
+				default: { m.ext = {0, 0}; std::initializer_list<VT> il = {}; go(il); break; }
 			}
 		} else if constexpr(D == 3) {
 			m.ext = {2, 1, 2}; m.v = {s, s + 1, s + 2, s + 3};
-			if(assign) { *slot[a] = {{{t(s), t(s + 1)}}, {{t(s + 2), t(s + 3)}}}; } else { slot[a].reset(new Arr{{{t(s), t(s + 1)}}, {{t(s + 2), t(s + 3)}}}); }
+			std::initializer_list<VT> il = {{{t(s), t(s + 1)}}, {{t(s + 2), t(s + 3)}}}; go(il);
 		} else {
 			(void)s; (void)t;
 			m.ext.assign(static_cast<std::size_t>(D), 0);
-			if(assign) { *slot[a] = {}; } else { slot[a].reset(new Arr{}); }
+			std::initializer_list<VT> il = {}; go(il);
 		}
 		if(assign && model[a].ext != m.ext) { nt = true; }
 		if(!assign) { alloc_id[a] = 0; }  // initializer-list constructors use a default-constructed allocator
@@ -519,10 +580,16 @@ struct Machine {
 	}
 
 	void run(Input const& in) {
+		try { run_(in); }
+		catch(Fail const&) { for(auto& s : slot) { (void)s.release(); } throw; }  // an array found invalid must not be destroyed while unwinding
+	}
+	void run_(Input const& in) {
 		for(int r = 0; r < in.nops(); ++r) {
 			unsigned op = in.op(r, 0) % M_NOPS;
 			try {
+				obs().context = static_cast<int>(op);
 				do_op(in, r);
+				obs().context = -1;
 			} catch(InjectedFault const&) {
 				note_fault(op, r);
 			} catch(std::bad_alloc const&) {
